@@ -555,7 +555,7 @@ func (db *Database) performFuzzySearch(query string, options SearchOptions) []Se
 		builder.WriteString(cmd.Command)
 		builder.WriteByte(' ')
 		builder.WriteString(cmd.Description)
-		targets[i] = builder.String()
+		targets[i] = matcherText(builder.String())
 	}
 
 	// Perform fuzzy search
@@ -590,6 +590,16 @@ func (db *Database) performFuzzySearch(query string, options SearchOptions) []Se
 	}
 
 	return results
+}
+
+// matcherText makes s safe to hand to the fuzzy matcher as a candidate. The
+// matcher takes a NUL character inside a candidate for the end of the string
+// and then indexes past the end of the pattern, so NULs become spaces.
+func matcherText(s string) string {
+	if strings.IndexByte(s, 0) < 0 {
+		return s
+	}
+	return strings.ReplaceAll(s, "\x00", " ")
 }
 
 // combineAndDeduplicateResults merges exact and fuzzy results, removing duplicates
@@ -661,7 +671,7 @@ func (db *Database) GetSuggestions(query string, maxSuggestions int) []string {
 	// Convert to slice for fuzzy matching
 	words := make([]string, 0, len(wordSet))
 	for word := range wordSet {
-		words = append(words, word)
+		words = append(words, matcherText(word))
 	}
 	// The matcher's stable sort keeps input order among equal scores
 	sort.Strings(words)
